@@ -7,6 +7,8 @@ at least as many genuine targets as the best single feature accepted (at train_f
 An exception is not a silent degradation, but only the documented ones are tolerated. assign_confidence with
 descs=[False] must keep the LOWEST scoring PSM of every spectrum and rank low scores first.
 q-values are recomputed from the definition with exact fractions; only label value 1 / True counts as target.
+mokapot.dataset.update_labels, the counter brew applies to the learned scores, must label at the eval_fdr it is given
+(brew passes test_fdr): checked directly on generated files and through brew runs with test_fdr far from 0.01.
 """
 import json
 import logging
@@ -91,9 +93,46 @@ def qvalues(scores, is_target, desc=True):
     return [out[float(v)] for v in s]
 
 
-def n_accepted(scores, is_target, fdr, desc=True):
+def accept_cut(scores, is_target, fdr, desc=True):
+    """(cut, targets accepted): a PSM has q <= fdr exactly when some score value v no better than its own has
+    (decoys at least as good as v + 1) / (targets at least as good as v) <= fdr, so the accepted PSMs are those at
+    least as good as the WORST such value v (the cut, on the scale in which higher is better; None: nothing accepted).
+    Integer arithmetic only ((D + 1) * den <= num * T with fdr = num/den exactly as the float says); q-values never
+    exceed 1, so fdr >= 1 accepts everything. Same function of the inputs as counting qvalues() <= fdr, without the
+    quadratic cost."""
+    s = np.asarray(scores, dtype=float).ravel() * (1.0 if desc else -1.0)
+    tgt = np.asarray(is_target, dtype=bool).ravel()
+    if not len(s):
+        return None, 0
     thr = Fraction(fdr)
-    return sum(1 for q, t in zip(qvalues(scores, is_target, desc), is_target) if t and q <= thr)
+    order = np.argsort(-s, kind="stable")
+    ss = s[order]
+    ends = np.flatnonzero(np.append(ss[1:] != ss[:-1], True))         # last row of every group of equal scores
+    nts = np.cumsum(tgt[order])[ends].tolist()
+    nds = np.cumsum(~tgt[order])[ends].tolist()
+    vals = ss[ends].tolist()
+    if thr >= 1:
+        return vals[-1], nts[-1]
+    cut, acc = None, 0
+    for v, nt, nd in zip(vals, nts, nds):
+        if nt and (nd + 1) * thr.denominator <= thr.numerator * nt:
+            cut, acc = v, nt
+    return cut, acc
+
+
+def n_accepted(scores, is_target, fdr, desc=True):
+    return accept_cut(scores, is_target, fdr, desc)[1]
+
+
+def expected_labels(scores, is_target, fdr, desc=True):
+    """+1 genuine targets with q <= fdr, 0 the other targets, -1 decoys"""
+    s = np.asarray(scores, dtype=float).ravel() * (1.0 if desc else -1.0)
+    tgt = np.asarray(is_target, dtype=bool).ravel()
+    cut = accept_cut(scores, is_target, fdr, desc)[0]
+    lab = np.where(tgt, 0, -1)
+    if cut is not None:
+        lab[tgt & (s >= cut)] = 1
+    return lab
 
 
 def is_target_col(col):
@@ -102,7 +141,35 @@ def is_target_col(col):
 
 
 # ------------------------------------------------------------------------------------------------ datasets
+def build_block_frames(c):
+    """c['blocks']: per file a list of [n, is_target, lo, hi]: n PSMs (one per spectrum) of that class with f0 uniform in
+    [lo, hi] on the scale in which higher is better (negated for a lower-is-better f0), rows shuffled; f1 noise,
+    f2 = globally unique row id."""
+    rng = np.random.default_rng(c["data_seed"])
+    pos, neg = ENCODINGS[c["encoding"]]
+    frames, rid = [], 0
+    for blocks in c["blocks"]:
+        f0 = np.concatenate([rng.uniform(lo, hi, int(n)) for n, t, lo, hi in blocks])
+        tgt = np.concatenate([np.full(int(n), bool(t)) for n, t, lo, hi in blocks])
+        if c.get("ties"):
+            f0 = np.round(f0, 1)
+        perm = rng.permutation(len(f0))
+        f0, tgt = f0[perm], tgt[perm]
+        n = len(f0)
+        ids = np.arange(rid, rid + n)
+        df = pd.DataFrame(dict(SpecId=ids, Label=[pos if t else neg for t in tgt], ScanNr=np.arange(n),
+                               ExpMass=100.0 + np.arange(n), f0=-f0 if c["lower"] else f0, f1=rng.normal(size=n),
+                               f2=ids, Peptide=["PEP%dK" % i for i in ids], Proteins=["prot%d" % (i % 4) for i in range(n)]))
+        if c["encoding"] == "bool":
+            df["Label"] = df["Label"].astype(bool)
+        frames.append(df)
+        rid += n
+    return frames
+
+
 def build_frames(c):
+    if c.get("blocks"):
+        return build_block_frames(c)
     rng = np.random.default_rng(c["data_seed"])
     pos, neg = ENCODINGS[c["encoding"]]
     frames, rid = [], 0
@@ -268,10 +335,74 @@ def gen_brew_cases(tier, seed):
             c["override"] = True
         cases.append(c)
     cases += gen_outlier_brew_cases(tier, seed)
+    cases += gen_eval_fdr_brew_cases(tier, seed)
     return cases
 
 
 N_OUTLIER_BREW = {"quick": 24, "thorough": 360}
+N_EVAL_FDR_BREW = {"quick": (20, 12), "thorough": (240, 160)}
+STRICT_FDR = [1 / 512, 1 / 256, 3 / 1024, 5 / 1024]      # test_fdr below 0.01 (k/1024: exact in binary)
+LAX_FDR = [1 / 32, 3 / 64, 1 / 16]                       # test_fdr above 0.01
+
+
+def gen_eval_fdr_brew_cases(tier, seed):
+    """brew with test_fdr well away from 0.01 AND from train_fdr, on block-layout data (one PSM per spectrum) large
+    enough for that level to accept something; own random stream.
+    strict (test_fdr < 0.01 < train_fdr): per file a top block of targets, a few decoys right below it, a second block
+    of targets, decoys (and some targets) at the bottom. The number of decoys in the gap is drawn between 1.2*test_fdr*T
+    and 0.009*T (T = targets above the bottom): a ranking like f0 accepts only the top block at test_fdr but both blocks
+    at 0.01 and at train_fdr. 5 of 6 cases make the second block large enough for the best feature's count on a
+    fold's training rows to exceed the top blocks (fallback required when the learned scores rank like f0), 1 of 6 keep it
+    small (model scores may be returned). Estimators: reproducing (4 of 6), memorising, inverted (training fails).
+    lax (train_fdr < 0.01 < test_fdr): a few hundred to 1500 PSMs per file, additionally a block of targets beyond every
+    decoy at the bad end, which is all that the memorising estimator's held-out ranking accepts at test_fdr."""
+    rng = np.random.default_rng([seed, 7006])
+    n_strict, n_lax = N_EVAL_FDR_BREW[tier]
+    cases = []
+    for k in range(n_strict):
+        x = STRICT_FDR[k % 4]
+        files = 1 if x < 1 / 300 else 1 + (k // 4) % 2
+        folds = 2 + (k // 2) % 2
+        blocks = []
+        for j in range(files):
+            n_clean = int(np.ceil(float(rng.uniform(1.3, 1.6)) * folds / x))         # >= 1/x targets of it in every test fold
+            if k % 6 == 2:
+                n_more = int(n_clean * float(rng.uniform(0.1, 0.25)) / (folds - 1))  # control: the model is no worse
+            else:
+                n_more = int(n_clean * float(rng.uniform(1.3, 1.8)) / (folds - 1)) + 1
+            T = n_clean + n_more
+            lo, hi = int(np.ceil(1.2 * x * T)) + 1, int(0.009 * T) - 1
+            n_gap = int(rng.integers(lo, max(lo, hi) + 1))
+            blocks.append([[n_clean, 1, 100.0, 200.0], [n_gap, 0, 50.0, 51.0], [n_more, 1, 20.0, 40.0],
+                           [int(T * float(rng.uniform(0.1, 0.2))), 0, -100.0, -50.0], [T // 20, 1, -100.0, -50.0]])
+        c = dict(blocks=blocks, n_spec=[sum(b[0] for b in bl) for bl in blocks], dup=1, data_seed=int(rng.integers(0, 10 ** 6)),
+                 encoding=list(ENCODINGS)[k % 3], lower=bool((k // 3) % 2), fmt=["tab", "parquet"][(k // 2) % 2],
+                 est=["good-dec", "good-proba", "good-dec", "memo-proba", "good-proba", "inverted-dec"][k % 6],
+                 train_fdr=[1 / 64, 3 / 256, 1 / 32][k % 3], test_fdr=x, max_iter=int(rng.integers(1, 3)), folds=folds,
+                 rng=int(rng.integers(0, 10 ** 6)), ties=bool(k % 5 == 4))
+        if k % 3 == 1:
+            c["direction"] = "f0"
+        cases.append(c)
+    for k in range(n_lax):
+        x = LAX_FDR[k % 3]
+        files = 1 + (k // 3) % 2
+        folds = 2 + (k // 2) % 2
+        blocks = []
+        for j in range(files):
+            n_clean, n_more = int(rng.integers(300, 600)), int(rng.integers(150, 500))
+            T = n_clean + n_more
+            blocks.append([[n_clean, 1, 100.0, 200.0], [int(rng.integers(T // 100, T // 40 + 2)), 0, 50.0, 51.0],
+                           [n_more, 1, 20.0, 40.0], [T // 4, 0, -100.0, -50.0], [T // 20, 1, -100.0, -50.0],
+                           [int(np.ceil(2 / x)) + int(rng.integers(0, 11)), 1, -300.0, -200.0]])
+        c = dict(blocks=blocks, n_spec=[sum(b[0] for b in bl) for bl in blocks], dup=1, data_seed=int(rng.integers(0, 10 ** 6)),
+                 encoding=list(ENCODINGS)[k % 3], lower=bool((k // 3) % 2), fmt=["parquet", "tab"][(k // 2) % 2],
+                 est=["memo-proba", "good-dec", "memo-proba", "good-proba", "inverted-dec", "memo-proba"][k % 6],
+                 train_fdr=[1 / 128, 1 / 64][k % 2], test_fdr=x, max_iter=int(rng.integers(1, 3)), folds=folds,
+                 rng=int(rng.integers(0, 10 ** 6)))
+        if k % 4 == 1:
+            c["direction"] = "f0"
+        cases.append(c)
+    return cases
 
 
 def gen_outlier_brew_cases(tier, seed):
@@ -309,9 +440,20 @@ def check_fallback(tier, seed):
                "PSMs in which enough non-good targets are moved beyond every decoy at the bad end of f0 for the wrongly "
                "ranked f0 to accept PSMs on a fold's training rows, 2 of 3 with Model(direction='f0'), higher/lower-is-better "
                "alternately, memorising/reproducing/inverted estimators, folds 2-3, train_fdr in {0.25,0.5}, test_fdr in "
-               "{0.125,0.25,0.5}. In every returned run each fold model's feat_pass/best_feat/desc is compared with the "
-               "independent count on that fold's training rows"
-               % ("1" if tier == "quick" else "12", 40 if tier == "quick" else 600, seed, N_OUTLIER_BREW[tier], seed),
+               "{0.125,0.25,0.5}; + %d + %d configurations (own stream of seed %d) with test_fdr away from 0.01 and from "
+               "train_fdr on block-layout files (one PSM per spectrum; top block of targets, a few decoys, second block of "
+               "targets, decoys and 5%% targets at the bottom): strict = test_fdr in {1/512,1/256,3/1024,5/1024} with train_fdr "
+               "in {1/64,3/256,1/32}, 1-2 files of 1000-5500 PSMs sized so that every test fold holds more than 1/test_fdr "
+               "top-block targets, gap decoys drawn so that a ranking like f0 accepts only the top block at test_fdr but both "
+               "blocks at 0.01 and at train_fdr, 5 of 6 with a second block so large that the best feature's training count "
+               "exceeds the top blocks; lax = test_fdr in {1/32,3/64,1/16} with train_fdr in {1/128,1/64}, 1-2 files of "
+               "700-1500 PSMs plus ceil(2/test_fdr)+0..10 targets beyond every decoy at the bad end; reproducing / memorising "
+               "/ inverted estimators, folds 2-3, 3 encodings, both file formats, higher/lower-is-better, 1 of 3 (1 of 4) with "
+               "Model(direction='f0'), every fifth strict case with f0 rounded to 1 decimal. In every returned run each fold "
+               "model's feat_pass/best_feat/desc is compared with the independent count on that fold's training rows, and the "
+               "returned scores are counted independently at test_fdr"
+               % ("1" if tier == "quick" else "12", 40 if tier == "quick" else 600, seed, N_OUTLIER_BREW[tier], seed,
+                  N_EVAL_FDR_BREW[tier][0], N_EVAL_FDR_BREW[tier][1], seed),
                "non-trivial = brew returned and either fell back to a feature column or returned model scores that were "
                "compared with the best feature's count on the training folds; loud failures (documented RuntimeErrors) and "
                "override=True runs are evaluations only")
@@ -335,6 +477,135 @@ def report(ck, found):
             best[cid] = (size, what, inp)
     for cid in sorted(best, key=lambda k: (k in EXPECTED, k)):
         ck.violation(cid, best[cid][1], best[cid][2])
+
+
+# ------------------------------------------------------------------------------------------------ update_labels
+FDR_GRID = [k / 1024 for k in (1, 2, 3, 5, 8, 10, 11, 13, 16, 24, 32, 48, 64, 100, 128, 200, 256, 384, 512)]
+N_UPDATE_LABELS = {"quick": 180, "thorough": 3000}
+
+
+def update_labels_inputs(c):
+    """labels (as written to the file), genuine-target mask and the in-memory scores of one case"""
+    rng = np.random.default_rng(c["data_seed"])
+    n = c["n"]
+    tgt = rng.random(n) < c["p_target"]
+    good = tgt & (rng.random(n) < c["p_good"])
+    s = rng.normal(0.0, 1.0, n) + np.where(good, c["shift"], 0.0)
+    if c["ties"] is not None:
+        s = np.round(s, c["ties"])          # 1: some equal scores, 0: whole numbers, many equal scores
+    if c["flip"]:
+        s = -s                              # the good scores are the low ones
+    pos, neg = ENCODINGS[c["encoding"]]
+    lab = np.array([pos if t else neg for t in tgt], dtype=bool if c["encoding"] == "bool" else int)
+    return lab, tgt, s
+
+
+def run_update_labels_case(c, d):
+    """mokapot.dataset.update_labels(file, scores, target_column, eval_fdr[, desc]) against expected_labels at the
+    eval_fdr that is passed. Returns (informative, violations)."""
+    from mokapot.dataset import update_labels
+    lab, tgt, s = update_labels_inputs(c)
+    n, col = c["n"], c["column"]
+    df = pd.DataFrame({"SpecId": np.arange(n), col: lab, "ScanNr": np.arange(n), "f0": np.round(s, 3)})
+    path = d / ("ul.%s" % c["fmt"])
+    if c["fmt"] == "parquet":
+        df.to_parquet(path, index=False)
+    else:
+        df.to_csv(path, sep="\t", index=False)
+    want = expected_labels(s, tgt, c["eval_fdr"], c["desc"])
+    at_default = expected_labels(s, tgt, 0.01, c["desc"])
+    informative = bool((want == 1).any() and (want == 0).any() and not np.array_equal(want, at_default))
+    scores = pd.Series(s) if c["series"] else s.copy()
+    try:
+        if c["desc"] and c["positional"]:       # the way brew calls it: four positional arguments, desc left at its default
+            got = update_labels(path, scores, col, c["eval_fdr"])
+        else:
+            got = update_labels(path, scores, target_column=col, eval_fdr=c["eval_fdr"], desc=c["desc"])
+    except Exception as e:  # noqa
+        return informative, [("update-labels-raises-" + type(e).__name__, "%s: %s" % (type(e).__name__, str(e)[:200]))]
+    finally:
+        path.unlink()
+    got = np.asarray(got)
+    if got.shape != (n,):
+        return informative, [("update-labels-shape", "result of shape %s for %d PSMs" % (got.shape, n))]
+    if np.array_equal(got, want):
+        return informative, []
+    counts = "got %d positive / %d unlabelled / %d negative, expected %d / %d / %d at eval_fdr=%g, desc=%s, labels %s, %s file" % (
+        int((got == 1).sum()), int((got == 0).sum()), int((got == -1).sum()), int((want == 1).sum()), int((want == 0).sum()),
+        int((want == -1).sum()), c["eval_fdr"], c["desc"], c["encoding"], c["fmt"])
+    like_default = np.array_equal(got, at_default)
+    like_other_way = np.array_equal(got, expected_labels(s, tgt, c["eval_fdr"], not c["desc"]))
+    if not np.array_equal(got == -1, ~tgt):
+        cid = "update-labels-decoys-not-the-non-targets-" + c["encoding"].replace("/", "-or-")
+    elif not (got == 1).any():          # fits any reading that accepts nothing: no finer class
+        cid = "update-labels-no-positives-though-targets-pass"
+    elif like_default and not like_other_way:
+        cid, counts = "update-labels-eval-fdr-ignored", counts + "; the result is what eval_fdr=0.01 (the default) gives"
+    elif like_other_way and not like_default:
+        cid, counts = "update-labels-desc-ignored", counts + "; the result is what the opposite direction gives"
+    else:
+        other = [f for f in FDR_GRID if np.array_equal(got, expected_labels(s, tgt, f, c["desc"]))]
+        cid = "update-labels-other-fdr-level" if other else "update-labels-wrong-positives"
+        counts += "; the result is what eval_fdr=%g gives" % other[0] if other else ""
+    return informative, [(cid, counts)]
+
+
+def gen_update_labels_cases(tier, seed):
+    rng = np.random.default_rng([seed, 7007])
+    cases = []
+    for k in range(N_UPDATE_LABELS[tier]):
+        big = k % 9 == 0                    # a few thousand PSMs: the strictest levels accept something
+        c = dict(n=int(rng.integers(2000, 6000)) if big else int(rng.integers(8, 500)), p_target=float(rng.choice([0.5, 0.7, 0.9])),
+                 p_good=float(rng.choice([0.4, 0.7, 0.95])), shift=float(rng.choice([3.0, 5.0, 8.0])) if not big else 9.0,
+                 ties=[None, 1, None, 0][int(rng.integers(0, 4))], data_seed=int(rng.integers(0, 10 ** 6)),
+                 encoding=list(ENCODINGS)[k % 3], fmt=["tab", "parquet"][(k // 3) % 2], desc=bool((k // 6) % 2 == 0),
+                 column=["Label", "is_target"][(k // 12) % 2], series=bool(k % 5 == 3), positional=bool(k % 4 < 2))
+        c["flip"] = (not c["desc"]) if rng.random() < 0.85 else c["desc"]      # 15%: ranked from the wrong end
+        # the level: drawn from the grid (1/1024 .. 1/2; the large files: from its five strictest values); re-drawn (at most 6 times) while the expected labels do not
+        # differ from those at 0.01, so that most cases can tell the level that was passed from the default
+        lab, tgt, s = update_labels_inputs(c)
+        at_default = expected_labels(s, tgt, 0.01, c["desc"])
+        for attempt in range(7):
+            c["eval_fdr"] = float(FDR_GRID[int(rng.integers(0, 5 if big else len(FDR_GRID)))])
+            want = expected_labels(s, tgt, c["eval_fdr"], c["desc"])
+            if (want == 1).any() and (want == 0).any() and not np.array_equal(want, at_default):
+                break
+        cases.append(c)
+    return cases
+
+
+def check_update_labels(tier, seed):
+    cases = gen_update_labels_cases(tier, seed)
+    ck = Check("update_labels_at_eval_fdr", "mokapot.dataset.update_labels (module-level; the counter brew applies to the learned "
+               "scores with test_fdr)",
+               "random with own stream of seed %d: %d files (Parquet / tab-delimited alternately) of 8-499 PSMs, every ninth of "
+               "2000-5999 PSMs; label column named Label or is_target in the encodings 1/-1, 1/0, true/false in turn; 50-90%% "
+               "targets of which 40-95%% score well; scores exact, rounded to 1 decimal or to whole numbers (equal scores); desc "
+               "True/False in blocks of six, in 15%% of the cases against the data's good direction; scores as numpy array or "
+               "(1 of 5) pandas Series; called as brew does (four positional arguments, desc defaulted) or with keywords; "
+               "eval_fdr drawn from k/1024, k in {1,2,3,5,8,10,11,13,16,24,32,48,64,100,128,200,256,384,512} (0.001 .. 0.5; "
+               "exact in binary so that float and exact comparison agree; the large files: k <= 8 only), re-drawn up to 6 times while the expected labels "
+               "equal those at 0.01" % (seed, len(cases)),
+               "oracle: exact integer target-decoy counting; +1 for genuine targets (label 1 / true) with q <= the eval_fdr "
+               "passed, 0 for the other targets, -1 for every non-target, compared element-wise; non-trivial = the expected "
+               "labels hold both accepted and unaccepted targets and differ from the expected labels at FDR 0.01")
+    found, levels = [], set()
+    with scratch("c07u_") as d:
+        for c in cases:
+            informative, bad = run_update_labels_case(c, d)
+            ck.case(c, nontrivial=informative)
+            if informative:
+                levels.add(c["eval_fdr"])
+            found += [(cid, what, c) for cid, what in bad]
+    ck.rule += "; distinct eval_fdr values among the non-trivial cases: %d (%g .. %g)" % (
+        len(levels), min(levels) if levels else 0, max(levels) if levels else 0)
+    best = {}
+    for cid, what, inp in found:            # smallest reproducer per class
+        if cid not in best or inp["n"] < best[cid][1]["n"]:
+            best[cid] = (what, inp)
+    for cid in sorted(best):
+        ck.violation(cid, best[cid][0], best[cid][1])
+    return ck
 
 
 # ------------------------------------------------------------------------------------------------ starting direction
@@ -677,6 +948,8 @@ def REPLAY(check_name, violation):
             bad = run_direction_case(c, d)[1]
         elif check_name == "start_direction_bookkeeping":
             bad = run_start_case(c)[1]
+        elif check_name == "update_labels_at_eval_fdr":
+            bad = run_update_labels_case(c, d)[1]
         else:
             return {"violated": None, "note": "no replay for %s" % check_name}
     return {"violated": bool(bad), "detail": bad[:3]}
@@ -685,7 +958,8 @@ def REPLAY(check_name, violation):
 if __name__ == "__main__":
     a = args()
     np.random.seed(a.seed)
-    emit([check_fallback(a.tier, a.seed), check_start(a.tier, a.seed), check_direction(a.tier, a.seed)],
+    emit([check_fallback(a.tier, a.seed), check_update_labels(a.tier, a.seed), check_start(a.tier, a.seed),
+          check_direction(a.tier, a.seed)],
          ["'the best single feature did during training' is taken as: accepted targets at train_fdr on the training rows "
           "(complement of a fold, fold structure read from OnDiskPsmDataset._split) maximised over features, directions "
           "and folds; with Model(direction=f) only feature f",
@@ -695,6 +969,12 @@ if __name__ == "__main__":
           "fold models are matched to folds by Model.fold (brew sorts them); training rows of fold i = all rows outside "
           "test fold i of every file (subset_max_train is not used)",
           "train_fdr/test_fdr restricted to dyadic values because mokapot.qvalues.tdc computes FDRs in float32 (C01 matter)",
+          "update_labels is checked for the label vector it documents (+1 genuine targets with q <= eval_fdr, -1 non-targets, "
+          "0 other targets) at levels k/1024 only: for those a correctly rounded (D+1)/T compares with the level as the exact "
+          "fraction does (files up to 6000 PSMs), so every difference is a real one; OnDiskPsmDataset.update_labels (the "
+          "method, not called anywhere) is not examined",
+          "a fallback that was not needed (learned scores no worse at test_fdr, feature column returned anyway) is not counted "
+          "as a violation: the statement only forbids returning worse model scores",
           "a documented RuntimeError of brew (calibration impossible, no PSM accepted at train_fdr) is a loud failure, "
           "not a silent degradation",
           "PEP columns are not examined; peps_algorithm left at its default (qvality)"])
